@@ -192,11 +192,19 @@ type filterObs struct {
 	Cells      string
 }
 
-func (u *universe) observeFilter(rf *core.RunningEventFilter) filterObs {
+// observeFilter: cells of blocks below floor (pruned) are left out — a pruning node may keep
+// them (harmless false positives) or not.
+func (u *universe) observeFilter(rf *core.RunningEventFilter, floor uint64) filterObs {
 	from, _ := rf.FromBlock()
 	next, _ := rf.NextBlock()
 	inner, _ := rf.InnerFilter()
-	return filterObs{From: from, Next: next, Cells: cellsString(u.cells(inner))}
+	cs := u.cells(inner)
+	for c := range cs {
+		if c.b < floor {
+			delete(cs, c)
+		}
+	}
+	return filterObs{From: from, Next: next, Cells: cellsString(cs)}
 }
 
 var _ = felt.Zero
